@@ -125,7 +125,11 @@ func (r *Registry) structSort(T types.Type, st *types.Struct) *structInfo {
 	for i := 0; i < st.NumFields(); i++ {
 		f := st.Field(i)
 		si.fnames = append(si.fnames, f.Name())
-		si.fields = append(si.fields, "f_"+name+"_"+sanitize(f.Name()))
+		fname := sanitize(f.Name())
+		if f.Name() == "_" {
+			fname = fmt.Sprintf("blank%d", i)
+		}
+		si.fields = append(si.fields, "f_"+name+"_"+fname)
 		si.ftypes = append(si.ftypes, f.Type())
 		si.fsorts = append(si.fsorts, r.sortOf(f.Type()))
 	}
@@ -474,4 +478,32 @@ func inRange(t string, T types.Type) string {
 		return "true"
 	}
 	return and(app("<=", intLit(lo), t), app("<=", t, intLit(hi)))
+}
+
+// subT / addT: arithmetic with constant folding on numerals.
+func subT(a, b string) string {
+	if b == "0" {
+		return a
+	}
+	x, okx := numeral(a)
+	y, oky := numeral(b)
+	if okx && oky && x >= y {
+		return fmt.Sprint(x - y)
+	}
+	return app("-", a, b)
+}
+
+func addT(a, b string) string {
+	if b == "0" {
+		return a
+	}
+	if a == "0" {
+		return b
+	}
+	x, okx := numeral(a)
+	y, oky := numeral(b)
+	if okx && oky {
+		return fmt.Sprint(x + y)
+	}
+	return app("+", a, b)
 }
